@@ -1,7 +1,9 @@
 import OntVerif.Proofs.NeoExec
 import OntVerif.Proofs.NeoExecInv
+import OntVerif.Proofs.NeoExecAlloc
 import OntVerif.Proofs.NativeDec
 import OntVerif.Gen.PanicSites
+import OntVerif.Gen.CloneCounter
 /-!
 # C12 — No transaction or pre-execution request can crash the node
 
@@ -17,6 +19,9 @@ Proved, for ALL inputs:
   as repaired by 060d8e9c); the function as it was before the repair did not return on `a = [1, a]`, for any budget
   (`C12_historical_buildParamToNative_diverges`); the one process death the model still contains, `reflect.DeepEqual` out of stack under
   EQUAL, is an explicit outcome with a witness (`C12_deepEqual_overflow_witness`);
+* a struct operand of APPEND / SETITEM is copied under ONE counter for the whole copy: at most `MAX_CLONE_LENGTH + 1` struct objects per
+  copy, additively per opcode (`C12_clone_alloc_bound`, `C12_append_setitem_alloc_bound`), and the Go function threads its counter the
+  same way (`C12_clone_counter_shared`);
 * `Model/NativeDec.lean` — the native contracts' decoders that loop over an announced count are total and run at most
   `len(input)` iterations (`C12_count_loop_bounded`, `C12_decode_total_*`);
 * the set of KINDS of explicit `panic(` calls and of loops / allocations / index operations driven by a decoded count, extracted from
@@ -197,6 +202,32 @@ theorem C12_readBytes_alloc_bound (allowEOF : Bool) (code : Bytes) (pos : Nat) (
 calls are enough: the budget is never the reason the model stops (the `*length > MAX_CLONE_LENGTH` check of the code is). -/
 theorem C12_clone_terminates (h0 : Heap) (r : Ref) (h : Heap) : R.safe (cloneStruct CLONE_FUEL h0 r h 0) :=
   cloneStruct_safe _ _ _ _ _ (by unfold CLONE_FUEL; omega) (by unfold CLONE_FUEL OntVerif.Model.NeoProg.MAX_CLONE_LENGTH; omega)
+
+/-- **the clone counter is shared by the whole recursion** (`cloneStruct(s, length *int)`: `*length++` per element, the limit checked at
+the entry of every nested struct): the nested structs are entered at strictly increasing counter values `≤ MAX_CLONE_LENGTH`, so one
+successful `Clone` creates at most `MAX_CLONE_LENGTH + 1` struct objects — on every heap, whatever is shared or cyclic in it. (A counter
+per root-to-leaf path would let `s.append(s)` double the number of copied structs per round.) -/
+theorem C12_clone_alloc_bound (h : Heap) (r r' : Ref) (h' : Heap) (len' : Nat)
+    (e : cloneStruct CLONE_FUEL h r h 0 = .ok (r', h', len')) :
+    h.length < h'.length ∧ h'.length ≤ h.length + OntVerif.Model.NeoProg.MAX_CLONE_LENGTH + 1 :=
+  OntVerif.Proofs.NeoExecAlloc.clone_alloc_bound _ _ _ _ _ _ e
+
+/-- **the Go code counts the way the model does** (`Gen/CloneCounter.lean`, extracted by role on every run): the worker reachable from
+`StructValue.Clone` that calls itself has a counter parameter of pointer type, increments it through the pointer, forwards that very
+parameter in every recursive call, `Clone` passes the address of a local of its own, and the early exit compares the counter with
+`MAX_CLONE_LENGTH` (`>`), whose value is the model's. A counter passed by value is the verdict "by-value: …" and breaks this theorem. -/
+theorem C12_clone_counter_shared :
+    OntVerif.Gen.CloneCounter.verdict = "shared" ∧ OntVerif.Gen.CloneCounter.limitCheck = "MAX_CLONE_LENGTH >" ∧
+    OntVerif.Gen.CloneCounter.limit = OntVerif.Model.NeoProg.MAX_CLONE_LENGTH := by decide
+
+/-- **APPEND and SETITEM copy a struct operand by value, and the copy is the only allocation**: either opcode grows the heap by at most
+`MAX_CLONE_LENGTH + 1` objects — additively per executed opcode, so k opcodes of a program add at most k * 1025 struct objects through
+copies (the self-append / self-setitem programs of corpus/C12/structclone.ops end with the VM error at round 12) -/
+theorem C12_append_setitem_alloc_bound (m m' : M) (e : opAppend m = .ok m' ∨ opSetItem m = .ok m') :
+    m.heap.length ≤ m'.heap.length ∧ m'.heap.length ≤ m.heap.length + (OntVerif.Model.NeoProg.MAX_CLONE_LENGTH + 1) := by
+  rcases e with e | e
+  · exact OntVerif.Proofs.NeoExecAlloc.opAppend_alloc m m' e
+  · exact OntVerif.Proofs.NeoExecAlloc.opSetItem_alloc m m' e
 
 /-- **`ConvertNeoVmValueHexString`** (Runtime.Notify; the result of a pre-execution): `MAX_COUNT + 3` nested calls are enough on every heap -/
 theorem C12_convert_terminates (h : Heap) (v : Val) : R.safe (convHex h CONV_FUEL v (0, 0)) ∧ R.safe (convertHexOk h v) :=
